@@ -92,6 +92,11 @@ func runLagMaster(work string, c *GroupCase) {
 	waitFor(30*time.Second, func() bool { _, n := g.ms[h].st.snapshot(); return n >= total })
 	c.AckedN = len(acked)
 	// the victim is back: its partition is Online as soon as its own log is replayed; the master's store dies right then
+	// (the master's store dies while the victim's process is replaying its own log: from the victim's first raft tick on,
+	// nothing from the old leader reaches it - one store down at any time)
+	g.mu.Lock()
+	g.ms[l].cut = true
+	g.mu.Unlock()
 	g.start(v)
 	g.kill(l)
 	online := [3]bool{true, true, true}
